@@ -232,11 +232,14 @@ def _size_path(chk: Check, bi) -> None:
                                       and isinstance(n.value, ast.Subscript) and isinstance(n.value.slice, ast.Slice)
                                       and n.value.slice.lower is None and attr_path(n.value.slice.upper) == (val,)
                                       and attr_path(n.value.value) == (me, "contents"))
-                           or (isinstance(n, ast.Delete) and isinstance(n.targets[0], ast.Subscript)
-                               and attr_path(n.targets[0].value) == (me, "contents")
-                               and isinstance(n.targets[0].slice, ast.Slice)
-                               and attr_path(n.targets[0].slice.lower) == (val,))
                            or (isinstance(n, ast.Assign) and attr_path(n.targets[0]) == (me, "initialized_size")))
+    inplace = cfg.nodes_where(lambda n: isinstance(n, ast.Delete) and isinstance(n.targets[0], ast.Subscript)
+                              and attr_path(n.targets[0].value) == (me, "contents"))
+    chk.ob("R19.3", key + ":truncation-rebinds", not inplace, s.loc(),
+           "the size setter truncates contents in place (del contents[n:]): contents is an assignable "
+           "public attribute and may hold immutable bytes or be exported through a memoryview, in which "
+           "case the shrink raises after the new size is already stored; truncate like the "
+           "initialized_size setter does (contents = contents[:n])", 2)
     not_smaller: Set[int] = set()
     for n, i in cfg.info.items():
         if i.kind == "test" and isinstance(i.ast, ast.Compare) and len(i.ast.ops) == 1:
